@@ -11,7 +11,7 @@ import (
 	"hzcheck/esp"
 )
 
-func init() { register("C19", c19Pair, c19Stages, c19Fresh, c19Idle) }
+func init() { register("C19", c19Pair, c19Stages, c19Fresh, c19Idle, c09Pools) }
 
 // C19.fresh — the stage events a finish reports are this request's own: the per-request reset
 // the serve loop calls between two requests of a connection clears the trace statistics.
